@@ -60,8 +60,54 @@ EqClause(rec) ==
                        ELSE LET c == bad(k) IN IF c # "ok" THEN c ELSE First(k + 1)
        IN First(1)
 
+(***************************************************************************)
+(* Structural relations.  Every exported node carries loc (a digest of its *)
+(* own fields with child positions abstracted away) and kids (its child    *)
+(* positions in order of first occurrence); loc_nt / kids_nt are the same  *)
+(* with all tags removed.  Class(g, k) is the smallest position that is    *)
+(* structurally equal to k -- hash-consing done by TLC.                    *)
+(***************************************************************************)
+RECURSIVE ClassesUpTo(_, _, _)
+ClassesUpTo(g, nt, k) ==
+  IF k = 0 THEN <<>>
+  ELSE LET prev == ClassesUpTo(g, nt, k - 1)
+           loc(j)  == IF nt THEN g.nodes[j].loc_nt ELSE g.nodes[j].loc
+           kids(j) == IF nt THEN g.nodes[j].kids_nt ELSE g.nodes[j].kids
+           kc(j)   == [q \in 1..Len(kids(j)) |-> prev[kids(j)[q]]]
+           same    == {j \in 1..(k - 1) : loc(j) = loc(k) /\ kc(j) = kc(k)}
+       IN Append(prev, IF same = {} THEN k ELSE CHOOSE j \in same : \A z \in same : j <= z)
+Classes(g, nt) == ClassesUpTo(g, nt, Len(g.nodes))
+
+\* "nodup_data": no two data-wrapper nodes wrap the same buffer (address, shape,
+\* strides, dtype) -- what deduplicate_data_wrappers documents; identical but
+\* separately stored data may legitimately stay separate.
+\* rel = "struct": rec.g one (combined) graph, rec.checks a sequence of check names,
+\* rec.pairs a sequence of <<posA, posB>> that must be structurally equal
+StructClause(rec) ==
+  LET g == rec.g
+      cls == Classes(g, FALSE)
+      clsnt == Classes(g, TRUE)
+      has(c) == \E q \in DOMAIN rec.checks : rec.checks[q] = c
+  IN
+  IF has("nodup") /\ \E k \in 1..Len(g.nodes) : cls[k] # k THEN "duplicate_nodes"
+  ELSE IF has("same") /\ \E q \in DOMAIN rec.pairs : cls[rec.pairs[q][1]] # cls[rec.pairs[q][2]]
+       THEN "not_structurally_equal"
+  ELSE IF has("same_nt") /\ \E q \in DOMAIN rec.pairs :
+             clsnt[rec.pairs[q][1]] # clsnt[rec.pairs[q][2]]
+       THEN "differs_in_more_than_tags"
+  ELSE IF has("nozero") /\ \E k \in 1..Len(g.nodes) : g.nodes[k].zc THEN "zero_call_left"
+  ELSE IF has("lowered") /\ \E k \in 1..Len(g.nodes) : g.nodes[k].kind \notin {"il", "in"}
+       THEN "not_lowered"
+  ELSE IF has("nodup_data") /\ \E j, k \in 1..Len(g.nodes) :
+             /\ j < k /\ g.nodes[j].kind = "in" /\ g.nodes[k].kind = "in"
+             /\ g.nodes[j].src = "dw" /\ g.nodes[k].src = "dw"
+             /\ g.nodes[j].dbuf = g.nodes[k].dbuf
+       THEN "duplicate_data_wrappers"
+  ELSE "ok"
+
 Clause(rec) ==
   CASE rec.rel = "eq" -> EqClause(rec)
+    [] rec.rel = "struct" -> StructClause(rec)
     [] rec.rel = "ne" -> IF EqClause(rec) = "ok" THEN "equal_but_expected_different" ELSE "ok"
 
 Verdict == PrintT(<<"V", Batch[r].id, Clause(Batch[r])>>)
